@@ -369,6 +369,7 @@ var stall struct {
 	c       any
 	since   time.Time
 	active  bool
+	also    [][2]string // further (property, facet) pairs a stall is attributed to
 }
 
 // WatchStart starts the watchdog goroutine (once per process). It must be called from outside any synctest bubble.
@@ -392,12 +393,30 @@ func WatchStart(limit time.Duration) {
 			buf := make([]byte, 4<<20)
 			buf = buf[:runtime.Stack(buf, true)]
 			msg := fmt.Sprintf("the case has not returned after %s of wall-clock time (cases of this facet take milliseconds): a call is stuck where neither a result nor the virtual clock can reach it - typically goroutines waiting for each other on a lock", time.Since(since).Round(time.Second))
+			stall.mu.Lock()
+			also := append([][2]string(nil), stall.also...)
+			stall.mu.Unlock()
+			for _, pf := range also {
+				WriteFailure(pf[0], pf[1], c, string(buf[:min(len(buf), 60000)]), msg)
+			}
 			WriteFailure(prop, facet, c, string(buf[:min(len(buf), 60000)]), msg)
 			Flush()
 			fmt.Fprintf(os.Stderr, "veriflib watchdog: %s\n%s\n", msg, buf)
 			os.Exit(3)
 		}
 	}()
+}
+
+// WatchAlso adds a (property, facet) pair every stall of this process is attributed to as well (a shared harness).
+func WatchAlso(property, facet string) {
+	stall.mu.Lock()
+	defer stall.mu.Unlock()
+	for _, pf := range stall.also {
+		if pf[0] == property && pf[1] == facet {
+			return
+		}
+	}
+	stall.also = append(stall.also, [2]string{property, facet})
 }
 
 // WatchCase marks the case now being executed; the returned function marks its end. No-op when WatchStart was not called.
